@@ -245,6 +245,61 @@ M('M08.15', 'C08', 'atomman/load/atom_data/load.py', "                if len(ter
   'NEGATIVE CONTROL: natoms line matched loosely; a later real count line overrides it', expect='clean')
 
 
+# ---- C19 -------------------------------------------------------------------
+LOGPY = 'atomman/lammps/Log.py'
+RUNPY = 'atomman/lammps/run.py'
+M('M19.1', 'C19', LOGPY, "                    thermo_footers.append(i-1)\n\n                # Check for strings listed prior to  performance data",
+  "                    thermo_footers.append(i)\n\n                # Check for strings listed prior to  performance data",
+  'the "Loop time" line becomes a thermo row')
+M('M19.2', 'C19', LOGPY, "                if len(line.split()) == 0:\n                    continue",
+  "                if line == '\\n':\n                    continue", 'whitespace-only lines are counted although pandas skips them')
+M('M19.3', 'C19', RUNPY, "    for i in range(1, lognum+1):", "    for i in range(lognum, 0, -1):", 'old logs re-read newest first (needs >= 2 restarts)')
+M('M19.4', 'C19', RUNPY, "            lognum = maxlogid + 1", "            lognum = max(maxlogid, 1)",
+  'rotation overwrites the newest rotated log (needs >= 2 restarts)')
+M('M19.5', 'C19', LOGPY, "            thermo_headers = [header for header in thermo_headers if header < i]\n", "",
+  'revert 77236b9: log ending right after the memory line')
+M('M19.6', 'C19', LOGPY, "                                float_precision='round_trip')\n\n        # Reset file pointer\n        log_info.seek(0)\n",
+  "                                float_precision='round_trip')\n\n        # Reset file pointer\n",
+  'stream not rewound after a thermo table (needs >= 2 blocks)')
+M('M19.7', 'C19', LOGPY, "if line[:8] == 'LAMMPS (' and self.lammps_version is None:", "if line[:8] == 'LAMMPS (':",
+  'version taken from the LAST banner: allowed by the statement, which does not say which', expect='clean')
+M('M19.8', 'C19', LOGPY, "merged_df[merged_df.Step < thermo.Step.min()]", "merged_df[merged_df.Step <= thermo.Step.min()]",
+  'flatten last keeps the boundary step twice (needs overlapping runs)')
+M('M19.9', 'C19', LOGPY, "thermo[thermo.Step > merged_df.Step.max()]", "thermo[thermo.Step >= merged_df.Step.max()]",
+  'flatten first keeps the boundary step twice (needs overlapping runs)')
+M('M19.10', 'C19', LOGPY, "        if append is False:\n            self.__simulations = []", "        if append is None:\n            self.__simulations = []",
+  'append=False no longer replaces')
+M('M19.11', 'C19', LOGPY, "                                skip_blank_lines=True,\n                                float_precision='round_trip')",
+  "                                skip_blank_lines=True)", 'revert d574e9e: default float converter (needs small values in long formats)')
+M('M19.12', 'C19', LOGPY, "            if not last_line_complete:\n                i -= 1", "            if False:\n                i -= 1",
+  'revert ae0f354: in-flight last line read as a row')
+M('M19.13', 'C19', LOGPY, "                    if len(performance_footers) < len(performance_headers):", "                    if True:",
+  'revert 67dd324: Nlocal without a breakdown recorded as a breakdown end')
+M('M19.14', 'C19', LOGPY, "                if merged_df[key].dtype != object:\n                    continue", "                if False:\n                    continue",
+  'revert 0c69b3e: flatten(last) casts float columns to the int dtype of the last run')
+M('M19.15', 'C19', LOGPY, "        if len(nonempty) > 0:\n            simulations = nonempty", "        if False:\n            simulations = nonempty",
+  'revert b2e0ab4: a run without rows wipes the merge')
+M('M19.16', 'C19', LOGPY, "'Sep': 9, 'Oct': 10,'Nov': 11,'Dec': 12}", "'Sep': 9, 'Oct': 10,'Nov': 10,'Dec': 12}", 'November parsed as October')
+M('M19.17', 'C19', LOGPY, "            # Reset file pointer\n            log_info.seek(0)\n\n            # Get number of Simulations already read",
+  "            # Get number of Simulations already read", 'no rewind after the scanning pass')
+M('M19.18', 'C19', LOGPY, "            elif style == 'all':\n                merged_df = pd.concat([merged_df, thermo], ignore_index=True)",
+  "            elif style == 'all':\n                merged_df = pd.concat([merged_df, thermo], ignore_index=True).drop_duplicates('Step')",
+  'flatten all drops repeated steps')
+M('M19.19', 'C19', LOGPY, "        simulations = self.simulations[firstindex:lastindex]", "        simulations = self.simulations[firstindex:]",
+  'flatten ignores lastindex')
+M('M19.20', 'C19', LOGPY, "        thermo_start_trigger = ['Memory usage per processor =',\n", "        thermo_start_trigger = [\n",
+  'old-style memory banner no longer recognised')
+M('M19.21', 'C19', LOGPY, "                                nrows=footer-header,\n                                sep=r'\\s+',",
+  "                                nrows=footer-header-1,\n                                sep=r'\\s+',", 'last row of every table dropped')
+M('M19.22', 'C19', RUNPY, "            for oldlog in Path().glob(f'{logname}-*{logext}'):", "            for oldlog in Path().glob(f'{logname}-?{logext}'):",
+  'rotation only sees single-digit log numbers (needs >= 10 restarts)')
+M('M19.23', 'C19', LOGPY, "            self.__lammps_version = line.strip()[8:-1]", "            self.__lammps_version = line.strip()[8:].split(' - ')[0].rstrip(')')",
+  'version loses its "- Update N" part')
+M('M19.24', 'C19', LOGPY, "        for sim in simulations[1:]:\n            thermo = sim.thermo\n", "        for sim in simulations[1:3]:\n            thermo = sim.thermo\n",
+  'flatten merges at most three runs')
+M('M19.25', 'C19', RUNPY, "    if screen:\n        log.read(output.stdout)", "    if screen:\n        log.read(output.stdout, append=lognum == 0)",
+  'screen output of a restart replaces the history instead of extending it')
+
 def _flex(old):
     """Regex for `old` that tolerates trailing blanks and whitespace-only lines."""
     import re
